@@ -50,12 +50,14 @@ def unary(a, f0, f1, f2, P, s1=0, s2=0, s0=0):
     return Jet(P(f0) + (P(mpf(1)) - 1) * s0, g, h, a.deps)
 
 
-def binary(a, b, f0, fa, fb, faa, fab, fbb, P):
+def binary(a, b, f0, fa, fb, faa, fab, fbb, P, s0=0):
+    """s0: absolute scale of the ingredients of the value (log(e^x +- e^y) is a sum of terms of the size of
+    the operands, whatever its own size)"""
     n = len(a.g)
     g = [P(P(fa * a.g[i]) + P(fb * b.g[i])) for i in range(n)]
     h = [[P(P(P(faa * a.g[i] * a.g[j]) + P(fab * P(P(a.g[i] * b.g[j]) + P(b.g[i] * a.g[j]))) + P(fbb * b.g[i] * b.g[j])) + P(P(fa * a.h[i][j]) + P(fb * b.h[i][j])))
           for j in range(n)] for i in range(n)]
-    return Jet(P(f0), g, h, a.deps | b.deps)
+    return Jet(P(f0) + (P(mpf(1)) - 1) * s0, g, h, a.deps | b.deps)
 
 
 def real(x):
@@ -211,7 +213,7 @@ def op_binary(name, a, b, P):
         m = max(x, y)
         f0 = m + mp.log(mp.exp(x - m) + mp.exp(y - m))
         pa, pb = mp.exp(x - f0), mp.exp(y - f0)
-        return binary(a, b, f0, pa, pb, pa * pb, -pa * pb, pa * pb, P)
+        return binary(a, b, f0, pa, pb, pa * pb, -pa * pb, pa * pb, P, max(abs(x), abs(y)) if mp.isfinite(max(abs(x), abs(y))) else 0)
     if name == "LogSub":
         if not x > y:
             raise Domain()
@@ -219,7 +221,7 @@ def op_binary(name, a, b, P):
         pa, pb = mp.exp(x - f0), -mp.exp(y - f0)
         # f = log(e^x - e^y): f_x = e^x/D, f_y = -e^y/D, f_xx = -e^{x+y}/D^2, f_xy = e^{x+y}/D^2, f_yy = -e^{x+y}/D^2
         c = mp.exp(x + y - 2 * f0)
-        return binary(a, b, f0, pa, pb, -c, c, -c, P)
+        return binary(a, b, f0, pa, pb, -c, c, -c, P, abs(x) + abs(f0 - x))
     raise KeyError(name)
 
 
